@@ -72,13 +72,16 @@ def c14(tier, seed):
         be = {k: be_build(work, k + '_be', v) for k, v in srcs.items()}
         le = {k: vlib.compile_many(work, k + '_le', v, ['-O0', '-g']) for k, v in srcs.items()}
         jobs = []
-        for mode in ('read', 'write', 'init', 'legacy', 'raw', 'views', 'history', 'badargs'):
+        for mode in ('read', 'write', 'init', 'legacy', 'raw', 'views', 'history', 'badargs', 'direct'):
             jobs.append(('fieldmon', dict(VP_MODE=mode, VP_FORMATS='all', VP_REPS=40 * scale, VP_EPISODES=60 * scale, VP_SAMPLES=1)))
-        for pl in (0, 3):
+        for pl in (2, 1, 4):      # host byte order x alignment: the same corpora at other PDU byte offsets
+            for mode in ('read', 'write', 'history', 'direct'):
+                jobs.append(('fieldmon', dict(VP_MODE=mode, VP_FORMATS='all', VP_REPS=10 * scale, VP_EPISODES=20 * scale, VP_SAMPLES=0, VP_PLACE=pl)))
+        for pl in (0, 3, 2):
             jobs.append(('canmon', dict(VP_REPS=2 * scale, VP_PLACE=pl)))
         for mode, cases in (('encode', 6000 * scale), ('decode', 3000 * scale), ('pad', 2), ('strarr', 400 * scale)):
             for part in range(4):
-                jobs.append(('vssmon', dict(VP_MODE=mode, VP_CASES=max(1, cases // 4) if mode != 'pad' else cases, VP_FIRST=part * (cases // 4), VP_CANARY=1,
+                jobs.append(('vssmon', dict(VP_MODE=mode, VP_CASES=max(1, cases // 4) if mode != 'pad' else cases, VP_FIRST=part * (cases // 4), VP_CANARY=1, VP_PLACE=(0, 2, 1, 7)[part],
                                             VP_SEED=int(seed) + (part if mode == 'pad' else 0))))
         hashes = collections.defaultdict(dict)
 
